@@ -24,7 +24,6 @@ NOT_APPLICABLE = {
     'C15': "`for_each_n`: `numThreads = min(numPoolThreads + wait, …)` then `staticChunkSize(n, 0)` | zero-thread pool, `wait=false`, `n>0` | take the serial path when `numThreads == 0` | **run**: `Assertion 'chunks > 0' failed` (abort; division by zero with NDEBUG)",
     'C16': 'variadic-template recursion over user functors; no C-like unit to put under contract.',
     'C17': 'check not built yet (contracts designed in DESIGN.md section 5, proof not closed in this framework yet)',
-    'C18': 'check not built yet (contracts designed in DESIGN.md section 5, proof not closed in this framework yet)',
     'C19': 'then-chain hand-off correctness is a store-buffering shape that is only wrong under weak memory; under A-SC the local obligations pass vacuously of the real risk, so no honest claim.',
     'C20': '"timeout only after the time elapsed" is about the kernel clock and `double`→`timespec` floating point; outside CBMC\'s useful reach (the "ready means done" half is covered under C21/C18).',
     'C21': '`Latch::count_down` notifies iff previous value `== 1` | `Latch(2); count_down(2)` with a parked waiter | notify when `prev == n` (count reached zero) | **run**: waiter parked in `wait()` still blocked 500 ms after `count_down(2)`',
@@ -164,10 +163,13 @@ CLAIMED['C45'] = dict(
 
 CLAIMED['C43'] = dict(
     category='proof',
-    text="Set-algebra sentence of the property only: for an arbitrary ghost id k (any int32_t) and arbitrary set contents, membership of k after add/remove/addRange/removeRange/clear "
+    text="Set-algebra sentence and the grouping decision: for an arbitrary ghost id k (any int32_t) and arbitrary set contents, membership of k after add/remove/addRange/removeRange/clear "
          "is exactly the mathematical result (ids < 0 or >= CPU_SETSIZE are ignored, nothing out of bounds is touched), contains() returns membership; verified by CBMC against glibc's "
-         "real CPU_SET/CPU_CLR/CPU_ISSET macros; the range loops carry loop invariants + decreases clauses (unbounded in the loop count).",
-    note="NOT decided here: CPU-list parsing (std::string/strtol/strchr) and cache-topology grouping (std::vector of structs) - outside the extractable subset, said so in the evidence. "
+         "real CPU_SET/CPU_CLR/CPU_ISSET macros; the range loops carry loop invariants + decreases clauses (unbounded in the loop count). parseIntClamped (numeric token -> id or -1) is under contract. Grouping: the per-atom "
+         "statement slice of buildGroupsFromCacheTopology (flush decision + append) preserves the loop invariant 'no two known L3 groups mixed, pending group <= maxGroupSize, every atom with "
+         "L3 information in the pending group belongs to currentL3', appends the atom whole exactly once, and the clamp makes maxGroupSize >= the largest L2 group (intwp).",
+    note="NOT decided here: the tokenising part of the CPU-list parser (std::string/strchr), buildCpuToL3Map/largestGroupSize/flushGroup (std::vector code, rendered by their effect on the "
+         "abstract state), and that the groups partition the CPUs (follows from 'appended whole exactly once' + the final flush, which is only checked textually). "
          "count() is proved only to forward glibc's __sched_cpucount (axiom stub). Linux variant only.",
     technique="CBMC DFCC function + loop contracts over the extracted methods and glibc macros, ghost membership index")
 
@@ -299,3 +301,16 @@ CLAIMED['C47'] = dict(
          "functions are assumed not to invoke the task objects they are given. Overload resolution is read off the call text. Zero-thread pools run the functor inline by design (outside the "
          "property).",
     technique="CBMC DFCC function + loop contracts over extracted bodies with an invocation-log ghost; callee entry points by contract replacement")
+
+CLAIMED['C18'] = dict(
+    category='proof',
+    text="Rely/guarantee contracts (CBMC DFCC) on the extracted bodies of FutureImplBase::run(int) (loop contract over the compare_exchange_weak retry loop, with spurious failures), run(), "
+         "waitCommon, wait, waitFor, waitUntil and ready, with arbitrary forward interference on the status word before every atomic access. Obligations: runFunc is called only by the thread "
+         "that won the kNotStarted -> kRunning CAS, at most once per call, while the status is kRunning and before the future is published; the only writes to the status word are that CAS and "
+         "the completion, done by the claimant, as kReady, after the functor ran, through notify (release store + wake) - a completion that is stored without the wake fails; the task-set "
+         "counter decrement and the then-chain follow the publication; run returns true iff this call ran the functor, and false only if somebody else runs or ran it; wait returns only with "
+         "the status kReady; timed waits report ready only if kReady was observed and run the functor themselves only if inline execution is allowed.",
+    note="A-SC; the rely (specs/c18_future.c others_act: the word only moves forward, only the claimant completes) and the R/G meta-theorem are trusted; 'exactly once over all threads' is the atomic "
+         "RMW axiom (one CAS winner) + 'never back to kNotStarted' proved here. CompletionEventImpl::notify/wait are used through their C21 contracts. Result identity, reference counting / dealloc, "
+         "and termination of the weak-CAS retry loop are NOT decided.",
+    technique="CBMC DFCC function + loop contracts, rely/guarantee via interference before each atomic macro, ownership ghost for the claimant")
